@@ -202,13 +202,26 @@ def scenario_r(mode='pass'):
   return fn
 
 
+def state_focus():
+  """Lines that are scheduling points in the harnesses driving a real TestState."""
+  from openhtf import util  # pylint: disable=g-import-not-at-top
+  from openhtf.core import test_state  # pylint: disable=g-import-not-at-top
+  T, P = test_state.TestState, test_state.PhaseState
+  out = [util.SubscribableStateMixin, T._finalize, T.set_status_running, T.mark_test_started, T.abort,  # pylint: disable=protected-access
+         T._asdict, T.as_base_types, P._notify, P.as_base_types]  # pylint: disable=protected-access
+  own = vars(T).get('notify_update')      # (only if TestState overrides the mixin's method)
+  if own is not None:
+    out.append(own)
+  return out
+
+
 def summary(d):
   """What a watcher can tell apart in a state snapshot (TestState._asdict() is a base-type rendering)."""
   rec = d['test_record']
   rps = d.get('running_phase_state')
   return (d['status'], len(rec.get('log_records', [])), len(rec.get('phases', [])),
           rps.get('name') if rps else None,
-          tuple(sorted((k, m.get('outcome')) for k, m in rps.get('measurements', {}).items())) if rps else (),
+          tuple(sorted((k, m.get('outcome'), repr(m.get('measured_value', '<none>'))) for k, m in rps.get('measurements', {}).items())) if rps else (),
           rec.get('outcome'))
 
 
@@ -239,7 +252,7 @@ def scenario_q(mode='pass'):
           if fired:
             stale_timeouts = 0
             break
-          now = summary(st._asdict())  # pylint: disable=protected-access
+          now = summary(st.as_base_types())        # (built afresh: not through whatever _asdict() may cache)
           if now != seen and not ev.is_set():
             stale_timeouts += 1
             if stale_timeouts >= 2:
@@ -256,12 +269,14 @@ def scenario_q(mode='pass'):
 
     wt = threading.Thread(target=watcher, name='watcher')
 
-    @h.measures(h.Measurement('m'))
+    @h.measures(h.Measurement('m'), h.Measurement('m2'))
     def p1(test):
       wt.start()
       attached.wait()
       test.measurements.m = 1
       test.logger.info('hello')
+      test.measurements.m2 = 2          # two in a row: the first is still pending when the second is set
+      time.sleep(0.5)                   # ... and then the phase is busy for a while: nothing else would wake a watcher
 
     def p2(test):
       if mode == 'stop':
@@ -285,8 +300,7 @@ def execute_q(mode, choices):
   from openhtf.core import test_state  # pylint: disable=g-import-not-at-top
   sched, value = explore.run_under_scheduler(
       scenario_q(mode), choices,
-      focus_targets=[util.SubscribableStateMixin, test_state.TestState._finalize, test_state.TestState.set_status_running,  # pylint: disable=protected-access
-                     test_state.TestState.mark_test_started],
+      focus_targets=state_focus(),
       focus_files=('openhtf/util/__init__.py',), max_steps=60000)
   result = {'value': value if isinstance(value, dict) else repr(value), 'failure': repr(sched.failure) if sched.failure else None}
   if isinstance(value, dict):
@@ -372,8 +386,7 @@ def execute_s(mode, choices):
   from openhtf.core import test_state  # pylint: disable=g-import-not-at-top
   sched, value = explore.run_under_scheduler(
       scenario_s(mode), choices,
-      focus_targets=[util.SubscribableStateMixin, test_state.TestState._finalize, test_state.TestState.set_status_running,  # pylint: disable=protected-access
-                     test_state.TestState.mark_test_started, test_state.TestState.abort],
+      focus_targets=state_focus(),
       focus_files=('openhtf/util/__init__.py',), max_steps=20000)
   result = {'value': value if isinstance(value, dict) else repr(value), 'failure': repr(sched.failure) if sched.failure else None}
   if isinstance(value, dict):
@@ -389,8 +402,7 @@ def execute_r(cfg, choices):
   from openhtf.core import test_state  # pylint: disable=g-import-not-at-top
   sched, value = explore.run_under_scheduler(
       scenario_r(cfg or 'pass'), choices,
-      focus_targets=[util.SubscribableStateMixin, test_state.TestState._finalize, test_state.TestState.set_status_running,  # pylint: disable=protected-access
-                     test_state.TestState.mark_test_started],
+      focus_targets=state_focus(),
       focus_files=('openhtf/util/__init__.py',), max_steps=40000)
   result = {'value': value if isinstance(value, dict) else repr(value), 'failure': repr(sched.failure) if sched.failure else None}
   if isinstance(value, dict):
